@@ -396,7 +396,8 @@ def boundary_cases(kind, layer, archive, tier, seed, d, memo):
     out = []
     stats = dict(combos=0, interleaved=0)
     for content in contents:
-        for mode in (["r"] if archive else ["r", "r+"] if content is big else MODES):
+        for mode in (["r"] if archive else ["r", "r+"] if content is big else
+                     ["r", "r+", "a+"] if not thorough and content == b"l1\nl2\n\nl4" else MODES):
             size0 = 0 if "w" in mode else len(content)
             inters = b_inters(mode, archive, layer)
             for pname, prefix in b_prefixes(mode, size0, archive):
@@ -405,7 +406,7 @@ def boundary_cases(kind, layer, archive, tier, seed, d, memo):
                 if thorough:
                     variants += inters
                 else:
-                    variants += rnd.sample(inters, 2)
+                    variants += rnd.sample(inters, 1)
                 for iname, inter in variants:
                     head = base + inter
                     st = b_probe_state(layer, content, head, d, memo)
@@ -502,6 +503,79 @@ def seek_is_negative(case):
     return None
 
 
+def temp_handle_iteration(report, d):
+    """io files can be iterated without keeping a reference to the handle (`for line in open(p)`): the iterator
+    must keep the file alive.  Every filesystem kind x open/openbin x binary/text, expected = the lines of the
+    content (io.BytesIO / io.StringIO as the oracle)."""
+    import fs.zipfs, fs.tarfs
+    from fs.memoryfs import MemoryFS
+    from fs.osfs import OSFS
+    from fs.mountfs import MountFS
+    from fs.wrap import read_only, cache_directory
+    n = 0
+    contents = [b"", b"one", b"l\nm\n\nlast", b"a\r\nb\rc\n", b"x" * 9001 + b"\ny\n"]
+    kinds = []
+
+    def add(name, make):
+        kinds.append((name, make))
+    add("MemoryFS", lambda: (MemoryFS(), None))
+    add("OSFS", lambda: (OSFS(tempfile.mkdtemp(prefix="it_", dir=d)), None))
+    add("SubFS(MemoryFS)", lambda: (MemoryFS().makedir("s"), None))
+    add("read_only(MemoryFS)", lambda: (MemoryFS(), read_only))
+    add("cache_directory(MemoryFS)", lambda: (MemoryFS(), cache_directory))
+    add("MountFS", lambda: (MemoryFS(), "mount"))
+    add("WriteZipFS", lambda: (fs.zipfs.ZipFS(io.BytesIO(), write=True), None))
+    add("WriteTarFS", lambda: (fs.tarfs.TarFS(io.BytesIO(), write=True), None))
+    add("ReadZipFS", lambda: ("zip", None))
+    add("ReadTarFS", lambda: ("tar", None))
+    for name, make in kinds:
+        for ci, data in enumerate(contents):
+            base, wrap = make()
+            try:
+                if base in ("zip", "tar"):
+                    buf = io.BytesIO()
+                    w = (fs.zipfs.ZipFS if base == "zip" else fs.tarfs.TarFS)(buf, write=True)
+                    w.writebytes("f.txt", data)
+                    w.close()
+                    buf.seek(0)
+                    fsx = (fs.zipfs.ZipFS if base == "zip" else fs.tarfs.TarFS)(buf)
+                else:
+                    base.writebytes("f.txt", data)
+                    if wrap == "mount":
+                        fsx = MountFS()
+                        fsx.mount("m", base)
+                        fsx = fsx.opendir("m")
+                    else:
+                        fsx = wrap(base) if wrap else base
+                exp_b = list(io.BytesIO(data))
+                exp_t = list(io.StringIO(data.decode("latin-1"), newline=""))     # FS.open defaults to newline=""
+                for label, opener, exp in (
+                        ("for line in open(p,'rb')", lambda: fsx.open("f.txt", "rb"), exp_b),
+                        ("for line in openbin(p)", lambda: fsx.openbin("f.txt"), exp_b),
+                        ("for line in open(p,'r')", lambda: fsx.open("f.txt", "r", encoding="latin-1"), exp_t)):
+                    n += 1
+                    try:
+                        got = [line for line in opener()]
+                    except Exception as e:  # noqa
+                        got = "raises %s: %s" % (type(e).__name__, e)
+                    if got != exp:
+                        sig = "%s handle: iteration without a kept reference" % name
+                        known = report.known_match(sig)
+                        if known:
+                            report.known_finding(known)
+                        else:
+                            report.violation(dict(kind="file-object-differs", comparison=sig, how=label,
+                                                  content=data[:40].decode("latin-1"), observed=repr(got)[:200],
+                                                  expected=repr(exp)[:200], theorem="Props/C16.v"))
+                        break
+            finally:
+                try:
+                    (fsx if "fsx" in dir() else base).close()
+                except Exception:
+                    pass
+    return n
+
+
 def run(report, forced=None):
     proof = common.preflight(report)
     cases = forced if forced is not None else explore(report.tier, report.seed)
@@ -561,6 +635,8 @@ def run(report, forced=None):
         b_bad, b_cov, b_total = boundary_block(report, d)
         bad += b_bad
         total += b_total
+        n_iter = temp_handle_iteration(report, d) if forced is None else 0
+        total += n_iter
     finally:
         shutil.rmtree(d, ignore_errors=True)
     seen = set()
@@ -595,11 +671,12 @@ def run(report, forced=None):
                         "EOF+3} (negative targets, and targets past EOF for archive members, excluded), each "
                         "followed by tell, read(2), tell, readline, tell (writable modes also: write, tell, "
                         "seek(0), read()); the same after interleaved calls on a second handle (read / "
-                        "seek-to-end / overwrite / append) and after fs.getsize / fs.getinfo (quick: 2 of the "
+                        "seek-to-end / overwrite / append) and after fs.getsize / fs.getinfo (quick: 1 of the "
                         "interleavings per position class, drawn from the seed; thorough: all); every mode "
                         "r,w,a,r+,w+,a+ (archive members: r); oracle = CPython io object of the same layer "
                         "(FileIO / Buffered*(3) / TextIOWrapper) on a temp file",
                    sequences=b_total, kinds=b_cov),
+               temp_handle_iterations=n_iter,
                traces_validated_against_impl=total - len(bad))
     return report.finish(proof, cov, assumptions=[
         "seeks to a negative target are outside the compared domain (BytesIO clamps, io.FileIO rejects)",
